@@ -395,75 +395,170 @@ FORMS = {
     "tms9900": dict(lo=0x10, hi=0x1000, mark=".dc16", forms=[
         "li r1, {}", "mov @{}, r2", "mov r2, @{}", "bl @{}", "b @{}", "a @{}(r3), r4", "clr @{}", "ai r1, {}"],
         rel=["jmp {}", "jne {}"]),
+    "6809": dict(lo=0x10, hi=0x1000, mark=".db", forms=[
+        "lda {},x", "ldb {},y", "leax {},u", "lda {}", "sta {}", "jmp {}", "jsr {}", "ldx #{}", "lda [{},x]",
+        "adda {},s", "ldd {}", "clra", "lda #10", "stb {},x", "leay {},y"], rel=["bra {}", "lbra {}", "bne {}"]),
+    "tms340": dict(lo=0x10, hi=0x1000, mark=".dc16", forms=[
+        "movi {}, a1", "addi {}, a2", "move @{}, a3, 0", "move a3, @{}, 0", "calla {}", "jauc {}", "nop",
+        "movk 5, a1", "jruc {}", "jrne {}", "andi {}, a4", "cmpi {}, a5"], rel=["jruc {}", "jreq {}"]),
     "pdp11": dict(lo=0x10, hi=0x1000, mark=".dc16", forms=[
         "mov #{}, r0", "mov @#{}, r1", "jmp @#{}", "jsr pc, @#{}", "add {}(r2), r3", "clr @#{}"], rel=["br {}", "bne {}"]),
 }
 
 
-ALIGNED = ("msp430", "msp430x", "68000", "mips", "mips32", "riscv", "arm", "thumb", "avr8", "tms9900", "pdp11")
+ALIGNED = ("msp430", "msp430x", "68000", "mips", "mips32", "riscv", "arm", "thumb", "avr8", "tms9900", "pdp11", "tms340")
+
+ODD_DATA = ['.db 1', '.db 1, 2, 3', '.ascii "abc"', '.asciiz "ab"', '.db 7', '.ascii "x"', '.db 1, 2, 3, 4, 5']
+EVEN_DATA_ALIGNED = [".dc32 0x12345678", ".dc32 1, 2", ".align 32", ".dc16 0x1234, 0x5678"]
+EVEN_DATA = [".db 1, 2, 3", ".dc16 0x1234", ".dc32 0x12345678", ".db 7", ".ascii \"ab\"", ".align 32"]
+DATA_LEN = {'.db 1': 1, '.db 1, 2, 3': 3, '.ascii "abc"': 3, '.asciiz "ab"': 3, '.db 7': 1, '.ascii "x"': 1,
+            '.db 1, 2, 3, 4, 5': 5, ".dc32 0x12345678": 4, ".dc32 1, 2": 8, ".dc16 0x1234, 0x5678": 4,
+            ".dc16 0x1234": 2, ".ascii \"ab\"": 2}
 
 
-def gen_twopass(rng, cpu, nstmt, forms=None, rel=True, shadow=False):
-    """Program for `cpu`: a low area (small label values), then code with a label before/after
+def gen_twopass(rng, cpu, nstmt, forms=None, rel=True, shadow=False, kinds="colon", odd=False):
+    """Program for `cpu`: a low area (small label values), then code with a label point before/after
     every statement referencing constants, backward and forward labels of small and large value,
     then a second low area and a high data area that define the forward-referenced labels.
-    Returns (source, info) where info lists per label the marker that follows it (or None) and per
-    statement the form/operand class (for signatures)."""
+
+    kinds: how the label points of the code area bind their name —
+      "colon"  `name:` at global scope (the original shape),
+      "func"   every label point is `.func name` (the previous function is closed with `.endf`): no plain label
+               stands between an instruction and the next function name,
+      "mixed"  `name:` global, `.func name`, `.scope` + local `name:`, local `name:` inside the open scope,
+      "local"  one `.scope` (or one `.func`) around the whole code area: every name behind the first is local.
+    odd: data directives of odd length (no `.align`) may stand in front of a label; markers are `.db`.
+
+    Returns (source, info); info["defs"] lists per bound name, in source order,
+      dict(name, kind, marker, prev=(form, cls), line, next=None | dict(kind="instr"|"data", line, form, cls, text),
+           odd=True|False|None (byte offset parity at the label, as far as the generator knows it))."""
     f = FORMS[cpu]
     forms = forms or f["forms"]
-    mark = f["mark"]
+    mark = ".db" if odd else f["mark"]
     msize = {".db": 1, ".dc16": 2, ".dc32": 4}[mark]
     lines = ["." + cpu]
     labels = []          # (name, marker value or None)
+    defs = []
     stmts = []           # (label_before, form, operand class)
     nmark = [0]
+    st = {"open": None, "prev": ("(area start)", "-"), "parity": 0, "pending": []}
 
-    def label(with_marker):
-        name = "L%d" % len(labels)
-        m = None
-        lines.append(name + ":")
+    def note_stmt(kind, form, cls, text):
+        for d in st["pending"]:
+            d["next"] = {"kind": kind, "line": len(lines), "form": form, "cls": cls, "text": text}
+        st["pending"] = []
+
+    def close():
+        if st["open"] == "func":
+            lines.append(".endf")
+        elif st["open"] == "scope":
+            lines.append(".ends")
+        st["open"] = None
+
+    def marker(base):
+        nmark[0] += 1
+        m = (base + nmark[0] * 37) & ((1 << (8 * msize)) - 1) | ((0x80 if base & 0x80000000 else 0x40) if msize == 1 else 0)
+        lines.append("  %s 0x%x ; M" % (mark, m))
+        return m
+
+    def label(with_marker, kind="colon", name=None):
+        """bind a name at this point; returns (name, visible after the scope closes)"""
+        name = name or "L%d" % len(labels)
+        if kind == "func":
+            close()
+            lines.append(".func " + name)
+            st["open"] = "func"
+        elif kind == "scope":
+            close()
+            lines.append(".scope")
+            st["open"] = "scope"
+            lines.append(name + ":")
+        else:
+            lines.append(name + ":")
+        d = {"name": name, "kind": kind if kind != "colon" or st["open"] is None else "local", "marker": None,
+             "prev": st["prev"], "line": len(lines), "next": None, "odd": st["parity"]}
+        st["pending"].append(d)
         if with_marker:
-            nmark[0] += 1
-            m = (0xA5A5A500 + nmark[0] * 37) & ((1 << (8 * msize)) - 1) | (0x80 if msize == 1 else 0)
-            lines.append("  %s 0x%x ; M" % (mark, m))
-        labels.append((name, m))
-        return name
+            m = marker(0xA5A5A500)
+            d["marker"] = m
+            note_stmt("data", mark, "-", lines[-1].strip())
+            if st["parity"] is not None:
+                st["parity"] = (st["parity"] + msize) & 3
+        labels.append((name, d["marker"]))
+        defs.append(d)
+        glob = kind == "func" or (kind == "colon" and st["open"] is None)
+        return name, glob
+
+    def pick_kind():
+        if kinds == "colon":
+            return "colon"
+        if kinds == "func":
+            return "func"
+        if kinds == "local":         # the whole code area is one .scope / one .func; every name in it is local
+            return rng.choice(["scope", "func"]) if st["open"] is None else "colon"
+        return rng.choice(["colon", "colon", "func", "func", "scope", "close"])
 
     # low area 1 (backward small labels)
     lo = f["lo"]
     lines.append(".org 0x%x" % rng.choice([lo, lo + 2, lo + 0x20]))
-    back_small = [label(True) for _ in range(3)]
+    back_small = [label(True)[0] for _ in range(3)]
     # names of labels defined later
     nfwd_small, nfwd_large = 3, 3
     fwd_small = ["FS%d" % i for i in range(nfwd_small)]
     fwd_large = ["FL%d" % i for i in range(nfwd_large)]
     hi = f["hi"]
     lines.append(".org 0x%x" % rng.choice([hi, hi + 0x100, hi + 0x7f0]))
-    back_large = [label(rng.random() < 0.5)]
+    st["prev"] = ("(area start)", "-")
+    st["parity"] = 0
+    st["pending"] = []
+    back_global, back_local = [], []
+    near = [None]
+
+    def label_point(p_marker):
+        k = pick_kind()
+        if k == "close":
+            close()
+            back_local.clear()
+            k = "colon"
+        if k in ("func", "scope"):
+            back_local.clear()
+        name, glob = label(rng.random() < p_marker, k)
+        (back_global if glob else back_local).append(name)
+        near[0] = name
+
+    label_point(0.5)
     consts_small = ["0", "1", "2", "4", "8", "0x10", "0x7f", "0x80", "0xff"]
     consts_large = ["0x100", "0x1234", "0x7fff", "0x8000", "0xfffe"] + (["0x12345", "0x10000"] if hi > 0x10000 or cpu in ("msp430x", "65816", "stm8") else [])
     for n in range(nstmt):
         r = rng.random()
-        if r < 0.12:
-            if cpu in ALIGNED:
-                d = rng.choice([".dc32 0x12345678", ".dc32 1, 2", ".align 32", ".dc16 0x1234, 0x5678"])
+        if r < (0.4 if odd else 0.12):
+            if odd:
+                d = rng.choice(ODD_DATA)
+            elif cpu in ALIGNED:
+                d = rng.choice(EVEN_DATA_ALIGNED)
             else:
-                d = rng.choice([".db 1, 2, 3", ".dc16 0x1234", ".dc32 0x12345678", ".db 7", ".ascii \"ab\"", ".align 32"])
+                d = rng.choice(EVEN_DATA)
             lines.append("  %s ; S %s | -" % (d, d.split(" ")[0]))
+            note_stmt("data", d.split(" ")[0], "-", d)
             stmts.append((len(labels), "data", "-"))
+            st["prev"] = (d.split(" ")[0], "-")
+            if d.startswith(".align"):
+                st["parity"] = 0
+            elif st["parity"] is not None:
+                st["parity"] = (st["parity"] + DATA_LEN[d]) & 3
         else:
-            use_rel = rel and f.get("rel") and rng.random() < 0.12
+            use_rel = rel and f.get("rel") and near[0] is not None and rng.random() < 0.12
             form = rng.choice(f["rel"] if use_rel else forms)
             small_only = form.endswith("!")
             form = form.rstrip("!")
             if use_rel:
                 cls = "back-near"
-                opnd = labels[-1][0]
+                opnd = near[0]
             else:
                 cls = rng.choice(["const-small", "back-small", "fwd-small"] if small_only else
                                  ["const-small", "const-large", "back-small", "back-large", "fwd-small", "fwd-large"])
                 opnd = {"const-small": rng.choice(consts_small), "const-large": rng.choice(consts_large),
-                        "back-small": rng.choice(back_small), "back-large": rng.choice(back_large),
+                        "back-small": rng.choice(back_small), "back-large": rng.choice(back_global + back_local),
                         "fwd-small": rng.choice(fwd_small), "fwd-large": rng.choice(fwd_large)}[cls]
             if "{}" not in form:
                 cls = "-"
@@ -471,32 +566,136 @@ def gen_twopass(rng, cpu, nstmt, forms=None, rel=True, shadow=False):
                 # the operand names a global label of small value that a local label of the
                 # enclosing .scope, defined AFTER the use, shadows (large value)
                 cls = "fwd-shadow"
+                close()
+                back_local.clear()
                 lines.append(".scope")
-                lines.append("  %s ; S %s | %s" % (form.replace("{}", opnd), form, cls))
+                st["open"] = "scope"
+                text = form.replace("{}", opnd)
+                lines.append("  %s ; S %s | %s" % (text, form, cls))
+                note_stmt("instr", form, cls, text)
                 stmts.append((len(labels), form, cls))
-                back_large.append(label(True))
-                lines.append(opnd + ":")
-                lines.append("  %s 0x%x ; M" % (mark, 0x33 if msize == 1 else 0x3334))
-                lines.append(".ends")
-                stmts.append((len(labels), "data", "-"))
-                back_large.append(label(True))
+                st["prev"] = (form, cls)
+                st["parity"] = None
+                label(True)
+                label(True, name=opnd)
+                close()
+                name, glob = label(True)
+                back_global.append(name)
+                near[0] = name
                 continue
-            lines.append("  %s ; S %s | %s" % (form.replace("{}", opnd), form, cls))
+            text = form.replace("{}", opnd)
+            lines.append("  %s ; S %s | %s" % (text, form, cls))
+            note_stmt("instr", form, cls, text)
             stmts.append((len(labels), form, cls))
-        back_large.append(label(rng.random() < 0.4))
+            st["prev"] = (form, cls)
+            # after an instruction the byte parity is only known for code that started aligned
+            if st["parity"] is not None and (st["parity"] & 1 or cpu not in ALIGNED):
+                st["parity"] = None
+        label_point(0.4)
+    close()
     # forward-referenced definitions
     lines.append(".org 0x%x" % (lo + 0x40))
+    st["prev"] = ("(area start)", "-")
+    st["parity"] = 0
+    st["pending"] = []
     for nme in fwd_small:
-        lines.append(nme + ":")
-        nmark[0] += 1
-        m = (0x5A5A5A00 + nmark[0] * 37) & ((1 << (8 * msize)) - 1) | (0x40 if msize == 1 else 0)
-        lines.append("  %s 0x%x ; M" % (mark, m))
-        labels.append((nme, m))
+        label(False, name=nme)
+        defs[-1]["marker"] = marker(0x5A5A5A00)
+        labels[-1] = (nme, defs[-1]["marker"])
+        note_stmt("data", mark, "-", lines[-1].strip())
     lines.append(".org 0x%x" % (hi + 0x4000 if hi < 0x8000 else hi + 0x1000))
     for nme in fwd_large:
-        lines.append(nme + ":")
-        nmark[0] += 1
-        m = (0x5A5A5A00 + nmark[0] * 37) & ((1 << (8 * msize)) - 1) | (0x40 if msize == 1 else 0)
-        lines.append("  %s 0x%x ; M" % (mark, m))
-        labels.append((nme, m))
-    return "\n".join(lines) + "\n", {"labels": labels, "stmts": stmts, "msize": msize, "cpu": cpu}
+        label(False, name=nme)
+        defs[-1]["marker"] = marker(0x5A5A5A00)
+        labels[-1] = (nme, defs[-1]["marker"])
+        note_stmt("data", mark, "-", lines[-1].strip())
+    for d in defs:
+        if d["odd"] is not None:
+            d["odd"] = bool(d["odd"] & 1)
+    return "\n".join(lines) + "\n", {"labels": labels, "stmts": stmts, "msize": msize, "cpu": cpu, "defs": defs,
+                                     "kinds": kinds, "odd_mode": odd}
+
+
+# ---------------------------------------------------------------------------------------------
+# C02: the MSP430 constant-generator instance (model computes the sizes itself: `twopass430`)
+# ---------------------------------------------------------------------------------------------
+
+CG430_FORMS = ["mov.w #{}, r5", "add.w #{}, r7", "cmp.w #{}, r8", "bis.w #{}, r10", "xor.w #{}, r11", "sub.w #{}, r12"]
+
+
+def gen_msp430cg(rng, nstmt):
+    """`op.w #operand, Rn` statements whose operand is a constant, a backward or a forward label — with values
+    the constant generator has (0, 1, 2, 4, 8, 0xffff) and others —, names bound by `name:` / `.func name`,
+    data of even and odd length.  Returns (source, model statements of `twopass430`, start address)."""
+    lines = [".msp430"]
+    ops = []
+    names = []
+
+    def bind(name, func=False):
+        if func:
+            lines.append(".func " + name)
+            ops.append("f:" + name)
+        else:
+            lines.append(name + ":")
+            ops.append("l:" + name)
+        names.append(name)
+
+    back = {}
+    for v in rng.sample([0, 1, 2, 4, 6, 8, 0x10], 4):
+        lines.append(".org %d" % v)
+        ops.append("o:%d" % v)
+        bind("B%d" % v)
+        back["B%d" % v] = v
+    fwd = {}
+    for v in [0, 1, 2, 4, 6, 8, 0x10]:
+        if "B%d" % v not in back:
+            fwd["F%d" % v] = v
+    fwd["FL"] = 0x9000
+    start = rng.choice([0x8000, 0x8100, 0xc000])
+    lines.append(".org 0x%x" % start)
+    ops.append("o:%d" % start)
+    open_func = False
+    local = []
+    nl = 0
+    for k in range(nstmt):
+        if rng.random() < 0.7:
+            f = rng.random() < 0.3
+            if f and open_func:
+                lines.append(".endf")
+            if f:
+                for n in local:          # names local to the function that ends here
+                    del back[n]
+                local.clear()
+            bind("N%d" % nl, f)
+            back["N%d" % nl] = None
+            if open_func and not f:
+                local.append("N%d" % nl)
+            nl += 1
+            open_func = open_func or f
+        r = rng.random()
+        if r < 0.15:
+            bs = [rng.randrange(256) for _ in range(rng.choice([1, 2, 3, 4]))]
+            lines.append("  .db " + ", ".join(str(b) for b in bs))
+            ops.append("d:" + bytes(bs).hex())
+        else:
+            form = rng.choice(CG430_FORMS)
+            c = rng.random()
+            if c < 0.4:
+                v = rng.choice([0, 1, 2, 4, 8, 0xffff, -1, 3, 5, 7, 9, 0x10, 0x1234, 0x7fff, 0x8000, 0xfffe, 0xff])
+                lines.append("  " + form.replace("{}", str(v)))
+                ops.append("c:%d" % (v & 0xffff))
+            else:
+                n = rng.choice(sorted(back) if c < 0.65 else sorted(fwd))
+                lines.append("  " + form.replace("{}", n))
+                ops.append("s:" + n)
+    if open_func:
+        lines.append(".endf")
+    for n, v in fwd.items():
+        lines.append(".org 0x%x" % v)
+        ops.append("o:%d" % v)
+        bind(n)
+    return "\n".join(lines) + "\n", ops, back_first_address(ops), names
+
+
+def back_first_address(ops):
+    return int(ops[0].split(":")[1])
